@@ -94,9 +94,9 @@ func zipContains(raw, sig []byte, msoCheck bool) bool {
 	}
 
 	for i := 0; i < 4; i++ {
-		if !b.advance(0x1A) {
-			return false
-		}
+		// b is at the file name of the header just checked, i.e. already past
+		// that header's signature: the next signature found from here belongs
+		// to the next entry, however small the current one is.
 		nextHeader = bytes.Index(b, pk)
 		if nextHeader == -1 {
 			return false
